@@ -12,7 +12,7 @@ CFG_OBS = os.path.join(SPEC, "mc", "SqlObs.cfg")
 ENVELOPE = dict(null_lit=False, inl_null=False, jts=("inner", "inner", "left", "cross"), on=("eq",),
                 mod="const", subq=("exists", "in", "scalar"), like=True, case=True, touch_all=True,
                 const_pred=False, order_const=False, agg_const=False, distinct_order=False, countd=True,
-                not_in_sub=False)
+                not_in_sub=False, sub_top_only=True, sel_needs_col=True)
 ENVELOPE_INNER_ON = dict(ENVELOPE, jts=("inner",), on=("eq", "eq+", "any"))
 
 
@@ -334,4 +334,232 @@ def check_c01(args):
     evidence_sql("C01", tier, seed, "translation_validation", cases, stats, agree, v, t0, RULE,
                  ASSUME + ["whole-optimizer validation only: each optimized plan (real and mocked statistics) "
                            "is compared with the unoptimized plan and with the semantics"])
+    return rc
+
+
+# =========================================================================== C12 / C13 / C05
+def layout_history(rnd, pk, ncols=3, dup_keys=False):
+    """A table filled by several INSERTs, deletes and compactions; returns (steps, rows)."""
+    rows, steps = [], []
+    keys = list(range(0, 12))
+    nins = rnd.choice([1, 2, 3, 4])
+    for i in range(nins):
+        batch = []
+        for _ in range(rnd.choice([1, 2, 3, 5])):
+            a = rnd.choice(keys)
+            if pk and not dup_keys:
+                while any(r[0] == a for r in rows + batch):
+                    a = rnd.choice(range(0, 40))
+            b = rnd.choice([None, 0, 1, 2, 3])
+            c = rnd.choice([None, "", "a", "b", "ab"])
+            batch.append([a if pk else rnd.choice([None] + keys), b, c])
+        rows += batch
+        steps.append({"sql": "insert into t1 values " + ", ".join(
+            "(" + ", ".join(G.lit(v) for v in r) + ")" for r in batch)})
+        k = rnd.random()
+        if k < 0.25 and rows:
+            # delete by key predicate
+            cut = rnd.choice(keys)
+            op = rnd.choice(["<", "=", ">="])
+            keep = [r for r in rows if not (r[0] is not None and
+                                            ((op == "<" and r[0] < cut) or (op == "=" and r[0] == cut) or
+                                             (op == ">=" and r[0] >= cut)))]
+            steps.append({"sql": f"delete from t1 where a {op} {cut}", "deleted": len(rows) - len(keep)})
+            rows = keep
+        elif k < 0.45:
+            steps.append({"op": "compact"})
+    return steps, rows
+
+
+T1 = {"t1": G.TABLES["t1"]}
+
+
+def order_query(rnd, rows):
+    """select over t1 with ORDER BY / LIMIT / OFFSET (and a filter now and then)."""
+    g = G.Gen(rnd, tables=T1, joins=False, feat=dict(ENVELOPE, subq=()))
+    scope = [("x1", c, ty) for c, ty in T1["t1"]]
+    sel = [(("col", "x1", c, ty), f"c{i + 1}") for i, (c, ty) in enumerate(T1["t1"])]
+    rnd.shuffle(sel)
+    sel = [(e, f"c{i + 1}") for i, (e, _) in enumerate(sel)]
+    if rnd.random() < 0.3:
+        sel.append((g.int_expr(scope, None, 1), f"c{len(sel) + 1}"))
+    q = dict(sel=sel, frm=("t", "t1", "x1"), where=None, grp=[], hav=None, agg=False, dist=False, ord=[],
+             lim=-1, off=0)
+    if rnd.random() < 0.35:
+        q["where"] = g.bool_expr(scope, None, 1)
+    if rnd.random() < 0.8:
+        idx = [i for i in range(len(sel)) if G.has_col(sel[i][0])]
+        rnd.shuffle(idx)
+        q["ord"] = [(i, rnd.choice(["asc", "desc"])) for i in idx[:rnd.choice([1, 1, 2, 3])]]
+    if rnd.random() < 0.7:
+        q["lim"] = rnd.choice([0, 1, 2, 5, -1])
+        q["off"] = rnd.choice([0, 0, 1, 2, 5])
+    return q
+
+
+def range_query(rnd, rows):
+    """select with a comparison predicate on the primary key (pushed into the scan as a key range)."""
+    g = G.Gen(rnd, tables=T1, joins=False, feat=dict(ENVELOPE, subq=()))
+    scope = [("x1", c, ty) for c, ty in T1["t1"]]
+    cols = [("col", "x1", c, ty) for c, ty in T1["t1"]]
+    proj = rnd.choice([cols, cols[::-1], [cols[1], cols[2]], [cols[1], cols[0]], [cols[2], cols[0], cols[1]]])
+    sel = [(e, f"c{i + 1}") for i, e in enumerate(proj)]
+    key = ("col", "x1", "a", G.INT)
+    present = sorted({r[0] for r in rows if r[0] is not None}) or [0]
+    def bound():
+        return ("ci", rnd.choice(present + [min(present) - 1, max(present) + 1, rnd.choice(range(0, 15))]))
+    k = rnd.random()
+    if k < 0.6:
+        pred = ("bin", rnd.choice(["=", "<", "<=", ">", ">="]), key, bound(), G.BOOL)
+    elif k < 0.85:
+        pred = ("bin", "and", ("bin", rnd.choice([">", ">="]), key, bound(), G.BOOL),
+                ("bin", rnd.choice(["<", "<="]), key, bound(), G.BOOL), G.BOOL)
+    else:
+        pred = ("bin", rnd.choice(["=", "<", ">="]), bound(), key, G.BOOL)      # constant on the left
+    if rnd.random() < 0.4:
+        pred = ("bin", "and", pred, g.bool_expr(scope, None, 0), G.BOOL)        # residual predicate
+    q = dict(sel=sel, frm=("t", "t1", "x1"), where=pred, grp=[], hav=None, agg=False, dist=False, ord=[],
+             lim=-1, off=0)
+    if rnd.random() < 0.3:
+        q["ord"] = [(rnd.randrange(len(sel)), rnd.choice(["asc", "desc"]))]
+    return q
+
+
+LAYOUTS = [{"block": 24, "rowset": 268435456}, {"block": 32, "rowset": 64}, {"block": 64, "rowset": 268435456},
+           {"block": 16384, "rowset": 268435456}, {"block": 40, "rowset": 200}]
+
+
+def layout_cases(seed, n, mkquery, pk_mode, dup_keys=False):
+    rnd = random.Random(seed)
+    cases = []
+    for i in range(n):
+        pk = pk_mode if isinstance(pk_mode, bool) else rnd.random() < 0.6
+        steps, rows = layout_history(rnd, pk, dup_keys=dup_keys)
+        qs = [mkquery(rnd, rows) for _ in range(4)]
+        cases.append({"pk": pk, "steps": steps, "rows": rows, "queries": qs, "layout": LAYOUTS[i % len(LAYOUTS)]})
+    return cases
+
+
+def run_layout_cases(cases, tag, engines=("disk", "mem")):
+    runs, labels = [], []
+    for i, c in enumerate(cases):
+        for eng in engines:
+            steps = [{"sql": f"create table t1(a int{' primary key' if c['pk'] else ''}, b int, c varchar)"}]
+            steps += [dict(s) for s in c["steps"]]
+            lab = []
+            for k, q in enumerate(c["queries"]):
+                sql = G.sql_query(q)
+                steps.append({"sql": sql}); lab.append((len(steps) - 1, f"{eng}.on", k))
+                steps.append({"sql": "pragma disable_optimizer"})
+                steps.append({"sql": sql}); lab.append((len(steps) - 1, f"{eng}.off", k))
+                steps.append({"sql": "pragma enable_optimizer"})
+            runs.append({"id": f"{i}.{eng}", "engine": eng, "opts": c["layout"], "steps": steps})
+            labels.append(lab)
+    outs = run_sharded("sql", runs, tag=tag, timeout=3300, case_timeout=40)
+    flat = []
+    for run, lab, out in zip(runs, labels, outs):
+        i = int(run["id"].split(".")[0])
+        c = cases[i]
+        if out.get("hang") or "fatal" in out:
+            raise ToolError(f"layout case {run['id']}: {out}")
+        # DML outcomes (C07-style counts) and setup sanity
+        nsetup = 1 + len(c["steps"])
+        c.setdefault("dml", {})[run["engine"]] = out["res"][:nsetup]
+        for idx, l, k in lab:
+            r = out["res"][idx]
+            c.setdefault("qobs", {}).setdefault(k, {})[l] = (
+                {"rows": r["rows"], "types": r.get("types", [])} if r["ok"]
+                else {"err": r.get("err", ""), "panic": bool(r.get("panic"))})
+    for c in cases:
+        for k, q in enumerate(c["queries"]):
+            flat.append({"db": {"t1": c["rows"]}, "q": q, "sql": G.sql_query(q), "pk": c["pk"],
+                         "obs": c["qobs"][k], "layout": c["layout"], "history": [s.get("sql") or s.get("op") for s in c["steps"]]})
+    return flat
+
+
+def validate_t1(flat, tag):
+    # SqlObs needs all tables of G.TABLES in db? no: only those referenced
+    return validate(flat, tag)
+
+
+def judge_flat(flat, v, pid, what):
+    stats = {"observations": 0, "nontrivial": set(), "errors": {}, "disagreements_checked": 0}
+    for c in flat:
+        info = {"sql": c["sql"], "rows_of_t1": c["db"]["t1"], "layout": c["layout"], "pk": c["pk"],
+                "history": c["history"], "expected": c["expected"]}
+        if c["expected"] and (c["q"]["ord"] or c["q"]["where"] is not None):
+            stats["nontrivial"].add(json.dumps([c["history"], c["sql"]]))
+        for lab, o in c["obs"].items():
+            if "rows" in o:
+                stats["observations"] += 1
+                if not c["match"][lab]:
+                    stats["disagreements_checked"] += 1
+                    v.violation(dict(info, config=lab, observed=o["rows"]),
+                                f"[{lab}, {c['layout']}] {c['sql']} after {c['history']}: returned "
+                                f"{o['rows'][:8]}, {what} gives {c['expected'][:8]}")
+            else:
+                key = (lab, "panic" if o.get("panic") else "err", re.sub(r"[0-9]+", "N", str(o.get("err", "")))[:70])
+                stats["errors"][key] = stats["errors"].get(key, 0) + 1
+                if lab.endswith(".on"):
+                    v.violation(dict(info, config=lab, error=o), f"[{lab}] {c['sql']} failed: {o.get('err')}")
+    return stats
+
+
+def check_c12(args):
+    t0 = time.time()
+    seed, tier = seed_tier(args)
+    build()
+    v = Verdict("C12")
+    n = 400 if tier == "thorough" else 45
+    cases = layout_cases(seed * 31 + 7, n, order_query, None)
+    flat = run_layout_cases(cases, "c12")
+    validate_t1(flat, "c12")
+    agree = oracle_selfcheck(flat)
+    stats = judge_flat(flat, v, "C12", "ORDER BY / LIMIT / OFFSET semantics")
+    import sqlknown
+    sqlknown.run_repros(v, "C12")
+    rc = v.finish()
+    write_evidence("C12", tier, seed, "exploration", {
+        "evaluations": stats["observations"], "distinct_nontrivial": len(stats["nontrivial"]),
+        "rule": "tables with / without primary key filled by 1-4 INSERTs, key-predicate DELETEs and forced "
+                "compactions on a grid of block / row-set sizes (several row-sets and blocks per table); "
+                "queries with 1-3 ORDER BY keys asc/desc (key and non-key columns, NULLs), LIMIT and OFFSET "
+                "in {0,1,2,5,absent}; memory and disk engine, optimizer on and off; TLC validates each "
+                "result against SqlSem.tla (sortedness on the keys, permutation, slice, sub-bag for "
+                "unordered LIMIT); non-trivial = ordered or filtered queries with a non-empty result",
+        "samples": [{"history": c["history"], "sql": c["sql"], "layout": c["layout"]} for c in flat[:3]],
+        "oracle_agreement_with_sqlite": agree, "disagreements_checked": stats["disagreements_checked"],
+        "failures_by_kind": {" | ".join(k): n for k, n in stats["errors"].items()},
+        "known_findings_seen": sorted(v.seen_known)}, ASSUME, time.time() - t0, len(v.violations))
+    return rc
+
+
+def check_c13(args):
+    t0 = time.time()
+    seed, tier = seed_tier(args)
+    build()
+    v = Verdict("C13")
+    n = 400 if tier == "thorough" else 45
+    cases = layout_cases(seed * 37 + 3, n, range_query, True)
+    # duplicate key values spanning blocks (a primary key is not enforced to be unique)
+    cases += layout_cases(seed * 41 + 9, n // 2, range_query, True, dup_keys=True)
+    flat = run_layout_cases(cases, "c13")
+    validate_t1(flat, "c13")
+    agree = oracle_selfcheck(flat)
+    stats = judge_flat(flat, v, "C13", "a full scan followed by the predicate")
+    import sqlknown
+    sqlknown.run_repros(v, "C13")
+    rc = v.finish()
+    write_evidence("C13", tier, seed, "exploration", {
+        "evaluations": stats["observations"], "distinct_nontrivial": len(stats["nontrivial"]),
+        "rule": "primary-key tables spread over several row-sets and many tiny blocks (with deletes and "
+                "compactions); predicates =, <, <=, >, >=, two-sided ranges, constant on either side, keys "
+                "present / absent / below / above all, residual predicates, five projections (key first, "
+                "last, absent); optimizer on (range pushed into the scan) and off, memory and disk engine; "
+                "TLC validates every result against SqlSem.tla",
+        "samples": [{"history": c["history"], "sql": c["sql"], "layout": c["layout"]} for c in flat[:3]],
+        "oracle_agreement_with_sqlite": agree, "disagreements_checked": stats["disagreements_checked"],
+        "failures_by_kind": {" | ".join(k): n for k, n in stats["errors"].items()},
+        "known_findings_seen": sorted(v.seen_known)},
+        ASSUME + ["integer keys only (the range scan supports no other key type)"], time.time() - t0, len(v.violations))
     return rc
